@@ -71,6 +71,9 @@ type FuncContract struct {
 	Params   []string // assumed contracts: parameter names
 	Clock    bool     // result is a read of the monotone ghost clock
 	Unroll   map[int]int // loop ordinal -> unrolling bound (with unwinding assertion)
+	Aliases  bool // results may alias the arguments at arbitrary offsets (keep slice offsets symbolic)
+	Unverified bool
+	UnverifiedWhy string
 }
 
 type PredDef struct {
@@ -126,6 +129,7 @@ type Contracts struct {
 	files      []string
 	required   map[string][]string // property -> obligation names that must exist
 	inlineExtern []string
+	dispatch   map[string]string // interface method -> implementing function key
 	tainted    []string
 	sinks      []string
 	declass    []string
@@ -133,7 +137,7 @@ type Contracts struct {
 
 func NewContracts() *Contracts {
 	return &Contracts{funcs: map[string]*FuncContract{}, preds: map[string]*PredDef{}, lockLevels: map[string]int{},
-		lockInvs: map[string]*LockInv{}, ghosts: map[string]*GhostField{}, events: map[string]string{}, required: map[string][]string{}}
+		lockInvs: map[string]*LockInv{}, ghosts: map[string]*GhostField{}, events: map[string]string{}, required: map[string][]string{}, dispatch: map[string]string{}}
 }
 
 var tagRe = regexp.MustCompile(`^(\w[\w-]*)(?:\[([^\]]*)\])?\s*(.*)$`)
@@ -260,6 +264,20 @@ func (cs *Contracts) LoadContractFile(path, pkg string, repoStyle bool) error {
 				return perr(err)
 			}
 			cur.LoopInv[n] = append(cur.LoopInv[n], &Clause{Kind: "invariant", Props: props, Name: label, Expr: e, Src: f[2], File: path, Line: lineNo, Loop: n})
+		case "abstract":
+			cur.Assumed = true
+		case "aliases":
+			cur.Aliases = true
+		case "unverified":
+			// body not (yet) checked against this contract: used at call sites as an assumption
+			cur.Unverified = true
+			cur.UnverifiedWhy = rest
+		case "dispatch":
+			f := strings.Fields(rest)
+			if len(f) != 2 {
+				return perr(fmt.Errorf("expected: dispatch Iface.Method implKey"))
+			}
+			cs.dispatch[f[0]] = f[1]
 		case "atomic":
 			cur.Atomic = true
 		case "inline":
